@@ -55,7 +55,13 @@ def prove_slot_selection(src_root, ex: Explorer):
     ex.run(path, 'slot-selection')
 
 
-def prove_manage_assigns(src_root, ex: Explorer):
+def prove_manage_assigns(src_root, ex: Explorer, liveness=False):      # liveness: the C05 clause, discharged by the C05 check only
+    """manage_transfers stores every task it creates in the slot of ITS transfer.  What the done-callbacks it registers DO is stated by
+    effect (they are run here, in registration order, whatever their form): the callbacks of a task clear exactly the slot that task
+    filled, and - the liveness half of C05 - a management cycle is requested at a moment at which that slot is ALREADY clear.  The cycle
+    requested by the task's own last transition (C05.cycle-on-change) can run while the finished task still sits in its slot (the job
+    wakes up before the done-callbacks run); the selection skips a transfer with a task, so without a request AFTER the slot is cleared
+    an upload that went back to QUEUED is never looked at again."""
     def path(ctx: Ctx):
         it = mk(src_root, ctx)
         w = C05.World(it, ctx)
@@ -63,18 +69,41 @@ def prove_manage_assigns(src_root, ex: Explorer):
         u = w.transfer('u', direction='UPLOAD', free_slots=True)
         it.hooks[f'{MGR}:TransferManager._get_queued_transfers'] = lambda it2, f, a, k: ([d], [u])
         it.hooks[f'{MGR}:TransferManager.get_free_upload_slots'] = lambda it2, f, a, k: 1
+        requests = []
+
+        def on_request(it2, f, a, k):
+            requests.append((getattr(a[1], 'name', None), d.attrs['_remotely_queue_task'] is None, u.attrs['_transfer_task'] is None))
+        it.hooks[f'{MGR}:TransferManager.request_management_cycle'] = on_request
         it.call(it.getattr(w.mgr, 'manage_transfers'), [], {})
         tasks = it.aio.tasks
         ok = len(tasks) == 2
+        td = tu = None
         if ok:
             td, tu = d.attrs['_remotely_queue_task'], u.attrs['_transfer_task']
             ok = td in tasks and tu in tasks and td is not tu and td.coro.func.node.name == '_queue_remotely' and td.coro.args[1] is d \
                 and tu.coro.func.node.name == '_initialize_upload' and tu.coro.args[1] is u \
-                and len(td.callbacks) == 1 and td.callbacks[0].func.node.name == '_remotely_queue_task_complete' and td.callbacks[0].self_val is d \
-                and len(tu.callbacks) == 1 and tu.callbacks[0].func.node.name == '_transfer_task_complete' and tu.callbacks[0].self_val is u \
+                and len(td.callbacks) >= 1 and len(tu.callbacks) >= 1 \
                 and d.attrs['_transfer_task'] is None and u.attrs['_remotely_queue_task'] is None
-        ctx.prove('C06.manage_transfers.handles', ok, 'every created task is stored in the slot of ITS transfer with the matching done-callback')
+        ctx.prove('C06.manage_transfers.handles', ok, 'every created task is stored in the slot of ITS transfer with a done-callback')
         ctx.prove('C06.manage_transfers.atomic', it.aio.yields == [])
+        if not ok:
+            return
+        del requests[:]
+        for cb in list(tu.callbacks):                       # the upload task ends: its callbacks run in registration order
+            it.call(cb, [tu], {})
+        ctx.prove('C06.manage_transfers.callbacks-clear-own-slot[upload]',
+                  u.attrs['_transfer_task'] is None and u.attrs['_remotely_queue_task'] is None and d.attrs['_remotely_queue_task'] is td and d.attrs['_transfer_task'] is None,
+                  'the done-callbacks of the upload task must clear the slot that task filled and no other')
+        if liveness:
+            ctx.prove('C05.slot-released.then-cycle[upload]', any(n == 'TRANSFER_CHANGE' and u_clear for n, _d, u_clear in requests),
+                      f'no management cycle is requested once the finished upload task has left its slot (requests seen: {requests}): the cycle asked for by '
+                      'the task\'s own transition to QUEUED may run while the finished task is still in the slot, skips the upload, and nothing looks at it again')
+        del requests[:]
+        for cb in list(td.callbacks):
+            it.call(cb, [td], {})
+        ctx.prove('C06.manage_transfers.callbacks-clear-own-slot[download]',
+                  d.attrs['_remotely_queue_task'] is None and d.attrs['_transfer_task'] is None and u.attrs['_transfer_task'] is None,
+                  'the done-callbacks of the remote-queue task must clear the slot that task filled and no other')
     ex.run(path, 'manage-assigns')
 
 
@@ -213,8 +242,13 @@ def prove_transfer_request_site(src_root, ex: Explorer):
                       'a second PeerTransferRequest while the first initialisation task has not started yet creates a second task and '
                       'overwrites the handle of the first')
         else:
-            ok = len(new_tasks) == 1 and t.attrs['_transfer_task'] is new_tasks[0] and len(new_tasks[0].callbacks) == 1 \
+            ok = len(new_tasks) == 1 and t.attrs['_transfer_task'] is new_tasks[0] and len(new_tasks[0].callbacks) >= 1 \
                 and new_tasks[0].coro.func.node.name == '_initialize_download'
+            if ok:                      # by effect: the done-callbacks, whatever their number and form, clear the slot this task filled
+                it.hooks[f'{MGR}:TransferManager.request_management_cycle'] = lambda it2, f, a, k: None
+                for cb in list(new_tasks[0].callbacks):
+                    it.call(cb, [new_tasks[0]], {})
+                ok = t.attrs['_transfer_task'] is None
             ctx.prove(f'C06._on_peer_transfer_request.starts[{state_name}]', ok)
     ex.run(path, 'transfer-request-site')
 
